@@ -101,10 +101,13 @@ class Prop(BaseProp):
             return lines
         big = idx % 40 == 7 and not ascii_only
         # big: a module of several tens of kilobytes with non-ASCII text everywhere (block-wise readers, buffers)
-        b = Builder(rng, p_doc=0.9 if big else 0.8, max_depth=3, mkdoc=mkdoc, max_items=90 if big else 5, compound_generic=False, class_arg_variants=True)
+        b = Builder(rng, p_doc=0.9 if big else 0.8, max_depth=3, mkdoc=mkdoc, max_items=(90 if idx % 80 == 7 else 420) if big else 5, compound_generic=False, class_arg_variants=True)
         if big:
             res.count("large_modules")
+            b_min = 0 if idx % 80 == 7 else 150          # (every other large module has at least 150 top-level items: > 64 KiB)
         mod = b.module(module_doc=rng.random() < 0.3, module_name=rng.choice(["", "", "modN0Z", "my.mod-N0Z"]))
+        if big and b_min and len(mod.items) < b_min:
+            mod.items = mod.items + b.items(0, n=b_min)
         # leaderless variant for some documented items: unindented, letter-initial lines
         for it in mod.walk():
             if it.doc is not None and it.kind != "dangling" and rng.random() < 0.1:
